@@ -236,6 +236,10 @@ def body_factory(ctx):
         Pb = B["out"]["P"].to_value(u.day)[::nlin]
         Pt = T["out"]["P"].to_value(u.day)[::nlin]
         same = len(Pb) == len(Pt) and np.allclose(Pb, Pt, rtol=1e-12, atol=0)
+        if same:
+            # (library rows may share a period: the accepted *rows* are the same only if the other parameters agree too)
+            for nm_, un_ in (("e", u.one), ("omega", u.rad), ("M0", u.rad)):
+                same = same and np.allclose(B["out"][nm_].to_value(un_)[::nlin], T["out"][nm_].to_value(un_)[::nlin], rtol=1e-9, atol=1e-12)
         if not same and not used_f4:
             # can round-off explain it? a uniform draw within the round-off of the acceptance ratio
             uu = B["rg"].calls("uniform")[0]["out"]
